@@ -218,6 +218,9 @@ def rule_last_mount_wins(chk, rid):
         keyish = {kp} | {s_.targets[0].id for s_ in body_walk(rt) if isinstance(s_, ast.Assign) and isinstance(s_.targets[0], ast.Name)
                          and U(s_.value).replace('"', "'") == f"{kp} + '/'"}
         sw = any(txt_ in {f"{k_}.startswith(prefix)" for k_ in keyish} and pol for _, txt_, pol, _ in lits)
+        from ..lib import is_slash_terminated
+        direct = any(pol and isinstance(e_, ast.Call) and call_tail(e_) == "startswith" and isinstance(e_.func.value, ast.Name) and e_.func.value.id in keyish
+                     and e_.args and is_slash_terminated(e_.args[0]) and "prefix" in U(e_.args[0]) for e_, _, pol, _ in lits)
         if sw:
             # prefix must have been extended with '/' before the test
             ext = [s for s in body_walk(rt) if isinstance(s, ast.AugAssign) and U(s.target) == "prefix" and U(s.value) == "'/'"]
@@ -225,7 +228,7 @@ def rule_last_mount_wins(chk, rid):
                 "endswith('/')" in t and not p for _, t, p, _ in lits)
             # the `if not prefix.endswith('/'): prefix += '/'` idiom: either branch leaves prefix ending in '/'
             sw = sw or bool(ext)
-        chk.ob(rid, f"{mp.qual}.route_to", eq or sw, "a mount matches at key == prefix or key.startswith(prefix + '/')", r, mod, key="boundary:" + ("eq" if eq else "startswith"))
+        chk.ob(rid, f"{mp.qual}.route_to", eq or sw or direct, "a mount matches at key == prefix or key.startswith(prefix + '/')", r, mod, key="boundary:" + ("eq" if eq else "startswith"))
     dflt = [r for r in rets if U(r.value) == "self.default_store"]
     chk.ob(rid, f"{mp.qual}.route_to", bool(dflt), "falls back to the default store", rt, mod, key="default")
     raises = [cfg.nodes[x].ast for x in cfg.raises() if cfg.is_reachable(x)]
